@@ -388,36 +388,84 @@ def r3_dirty(prog, rep: Report, fam: Family, mut: Cls, rec: Cls):
         rep.ok("C12.R3", (mut.relpath, mut.short, mut.node.lineno), "never-reset", "no method writes a value other than True")
 
 
-def record_save_check(prog, rep: Report, rule: str, rec: Cls, w: Func, lines: str):
+def record_save_check(prog, rep: Report, rule: str, rec: Cls, w: Func, lines: str, fam: Optional[Family] = None):
+    """what the record file hands to the writer.  OK: an index-aligned walk of the table (offset entries through the raw line reader
+    at their index, str entries as they are).  VIOLATION: the walk reads an offset entry with the *next-line* reader without a
+    seek in front of it (entries adjacent in the table need not be adjacent in the file), reads through the record layer, passes
+    something else than (out, line_ending) on, or is the recognised walk with a wrong arm.  Anything else: UNRECOGNISED."""
     rs = prog.method_raw(rec, "save")
     rep.fn(rs)
     calls = [c for c in calls_in(rs.node) if isinstance(c.func, ast.Attribute) and c.func.attr == w.name]
-    ok, why = False, "record save does not call the writer once"
-    if len(calls) == 1 and len(calls[0].args) == 3:
-        g = calls[0].args[0]
-        from ..util import as_comprehension
-        g = as_comprehension(prog, rec, rs, g) or g        # a local, or a generator helper whose body is the same walk
-        why = f"`{src(g)}` is not an index-aligned walk of self.{lines} (offset entries read through the raw reader, str entries as they are)"
-        if isinstance(g, (ast.GeneratorExp, ast.ListComp)) and len(g.generators) == 1 and not g.generators[0].ifs:
-            gen = g.generators[0]
-            if isinstance(gen.iter, ast.Call) and src(gen.iter.func) == "enumerate" and dotted(gen.iter.args[0]) == (rs.self_name, lines) \
-                    and isinstance(gen.target, ast.Tuple):
-                i, x = (src(t) for t in gen.target.elts)
-                e = g.elt
-                if isinstance(e, ast.IfExp):
-                    t = e.test
-                    int_test = isinstance(t, ast.Call) and src(t.func) == "isinstance" and src(t.args[0]) == x
-                    is_int = int_test and src(t.args[1]) == "int"
-                    is_str = int_test and src(t.args[1]) == "str"
-                    raw, mem = (e.body, e.orelse) if is_int else (e.orelse, e.body)
-                    raw_ok = isinstance(raw, ast.Call) and isinstance(raw.func, ast.Attribute) and [src(a) for a in raw.args][-1] == i \
-                        and raw.func.attr in {m_ for k_ in rec.repo_mro() for m_ in k_.methods} and "load" not in raw.func.attr \
-                        and "Record" not in src(raw.func).split(".")[0].replace("RandomLineAccessFile", "")
-                    ok = (is_int or is_str) and raw_ok and src(mem) == x
-        ok = ok and [src(a) for a in calls[0].args[1:]] == [rs.params[1], rs.params[2]]
+    scenario = ("after f.insert(0, r) the saved file pairs line numbers with shifted offsets, or re-serialises records "
+                "through load/save and changes their text")
+    if not (len(calls) == 1 and len(calls[0].args) == 3):
+        rep.unrec(rule, rs, "record-save", "record save does not call the writer once with three positional arguments")
+        return
+    g0 = calls[0].args[0]
+    from ..util import as_comprehension
+    g = as_comprehension(prog, rec, rs, g0) or g0        # a local, or a generator helper whose body is the same walk
+    why = f"`{src(g)}` is not an index-aligned walk of self.{lines} (offset entries read through the raw reader, str entries as they are)"
+    verdict = None
+    if isinstance(g, (ast.GeneratorExp, ast.ListComp)) and len(g.generators) == 1 and not g.generators[0].ifs:
+        gen = g.generators[0]
+        if isinstance(gen.iter, ast.Call) and src(gen.iter.func) == "enumerate" and dotted(gen.iter.args[0]) == (rs.self_name, lines) \
+                and isinstance(gen.target, ast.Tuple) and len(gen.target.elts) == 2:
+            i, x = (src(t) for t in gen.target.elts)
+            e = g.elt
+            if isinstance(e, ast.IfExp):
+                t = e.test
+                if isinstance(t, ast.UnaryOp) and isinstance(t.op, ast.Not):
+                    t, e = t.operand, ast.IfExp(test=t.operand, body=e.orelse, orelse=e.body)
+                int_test = isinstance(t, ast.Call) and src(t.func) == "isinstance" and src(t.args[0]) == x
+                is_int = int_test and src(t.args[1]) == "int"
+                is_str = int_test and src(t.args[1]) == "str"
+                raw, mem = (e.body, e.orelse) if is_int else (e.orelse, e.body)
+                raw_ok = isinstance(raw, ast.Call) and isinstance(raw.func, ast.Attribute) and [src(a) for a in raw.args][-1:] == [i] \
+                    and raw.func.attr in {m_ for k_ in rec.repo_mro() for m_ in k_.methods} and "load" not in raw.func.attr \
+                    and "Record" not in src(raw.func).split(".")[0].replace("RandomLineAccessFile", "")
+                if is_int or is_str:
+                    verdict = bool(raw_ok and src(mem) == x)
+    if verdict is None:
+        # not the recognised walk: look for the one thing that is wrong whatever the rest does - an offset entry read with the
+        # next-line reader (no position of its own) without a seek to that entry directly in front of it
+        code = []
+        if isinstance(g0, ast.Call):
+            tgt = None
+            if isinstance(g0.func, ast.Name) and g0.func.id in getattr(rs, "nested", {}):
+                tgt = rs.nested[g0.func.id]
+            elif isinstance(g0.func, ast.Attribute) and isinstance(g0.func.value, ast.Name) and g0.func.value.id == rs.self_name:
+                tgt = prog.resolve(rec, g0.func.attr)
+            if tgt is not None:
+                code = [tgt.node]
+        if not code:
+            code = [g]
+        nxt = fam.next_reader if fam is not None else "_read_next_line"
+        seek = fam.seek_helper if fam is not None else "_file_seek"
+        for root in code:
+            for n in ast.walk(root):
+                if isinstance(n, ast.Call) and isinstance(n.func, ast.Attribute) and n.func.attr in (nxt, "readline"):
+                    st = n
+                    while st is not None and not isinstance(st, ast.stmt):
+                        st = getattr(st, "_parent", None)
+                    blk = None
+                    par = getattr(st, "_parent", None)
+                    for fld in ("body", "orelse", "finalbody"):
+                        b_ = getattr(par, fld, None)
+                        if isinstance(b_, list) and st in b_:
+                            blk = b_
+                    prev = blk[blk.index(st) - 1] if blk and blk.index(st) > 0 else None
+                    seeks = isinstance(prev, ast.Expr) and isinstance(prev.value, ast.Call) and isinstance(prev.value.func, ast.Attribute) \
+                        and prev.value.func.attr in (seek, "seek")
+                    if not seeks:
+                        rep.viol(rule, rs, "record-save", f"`{src(n)}` reads the line that follows the last one read, without a seek to the "
+                                 f"offset of the entry being saved: entries that are neighbours in self.{lines} need not be neighbours in "
+                                 "the file (after an insert, a delete or a re-ordered index)", scenario=scenario, line=n.lineno)
+                        return
+        rep.unrec(rule, rs, "record-save", why)
+        return
+    ok = verdict and [src(a) for a in calls[0].args[1:]] == [rs.params[1], rs.params[2]]
     rep.check(rule, rs, "record-save", ok, "walks the table by index: offsets through the raw line reader, strings as stored", why,
-              scenario="after f.insert(0, r) the saved file pairs line numbers with shifted offsets, or re-serialises records "
-                       "through load/save and changes their text")
+              scenario=scenario)
 
 
 def r4_save(prog, rep: Report, fam: Family, mut: Cls, rec: Cls, lines: str):
@@ -433,7 +481,7 @@ def r4_save(prog, rep: Report, fam: Family, mut: Cls, rec: Cls, lines: str):
     rep.check("C12.R4", sv, "plain-save", ok, f"_save_from_iter(self, {out}, {le})",
               "save does not hand the object's own iteration, the output and the line ending to the writer",
               scenario="save writes another sequence than list(f), or ignores the chosen line ending")
-    record_save_check(prog, rep, "C12.R4", rec, w, lines)
+    record_save_check(prog, rep, "C12.R4", rec, w, lines, fam)
     # writer (read with the class's private helpers inlined: the print loop may live in a helper of its own)
     from ..inline import inline_view
     w_raw = w
@@ -479,6 +527,9 @@ def r4_save(prog, rep: Report, fam: Family, mut: Cls, rec: Cls, lines: str):
                     end = kwarg(p, "end")
                     file = kwarg(p, "file")
                     line_arg = p.args[0] if p.args else None
+                    if line_arg is not None:
+                        from ..util import expand_all
+                        line_arg = expand_all(line_arg, Flow(w.node), keep={src(lp.target)})     # content = line.rstrip("\n"); print(content, ..)
                     uses_line = line_arg is not None and any(isinstance(x, ast.Name) and x.id == src(lp.target) for x in ast.walk(line_arg))
                     one = end is not None and src(end) == le_p and file is not None and uses_line and len(p.args) == 1
                 else:
@@ -491,12 +542,15 @@ def r4_save(prog, rep: Report, fam: Family, mut: Cls, rec: Cls, lines: str):
         for lp_ in loops:
             for c in ast.walk(lp_):
                 if isinstance(c, ast.Call) and src(c.func) == "print" and c.args:
-                    c_ok, c_why = writer_content_ok(c.args[0], src(lp_.target))
-                    if not c_ok:
+                    c_ok, c_why = writer_content_ok(c.args[0], src(lp_.target), Flow(w.node))
+                    if c_ok is False or (c_ok is None and content_ok is True):
                         content_ok, content_why = c_ok, c_why
-    rep.check("C12.R4", w, "writer-content", content_ok, "the line is written unmodified (only a trailing '\\n' may be stripped)",
-              content_why, scenario="a line ending in blanks or a tab (e.g. a TSV record whose last field is empty) is saved without "
-                                    "them: the reopened file differs from the list", line=loops[0].lineno if loops else None)
+    if content_ok is None:
+        rep.unrec("C12.R4", w, "writer-content", content_why, loops[0].lineno if loops else None)
+    else:
+        rep.check("C12.R4", w, "writer-content", content_ok, "the line is written unmodified (only a trailing '\\n' may be stripped)",
+                  content_why, scenario="a line ending in blanks or a tab (e.g. a TSV record whose last field is empty) is saved without "
+                                        "them: the reopened file differs from the list", line=loops[0].lineno if loops else None)
     if not skip_writer:
       rep.check("C12.R4", w, "writer", ok, f"each line written once, followed by {le_p}", why,
               scenario="save(out, line_ending='\\r\\n') writes '\\n', skips lines or writes them twice", line=loops[0].lineno if loops else None)
@@ -509,10 +563,19 @@ def r4_save(prog, rep: Report, fam: Family, mut: Cls, rec: Cls, lines: str):
               scenario="saving twice to the same path appends the lines again: reopening gives twice the list")
 
 
-def writer_content_ok(arg: ast.expr, line_var: str):
-    """the printed expression is the line itself, possibly with exactly a trailing newline removed"""
+def writer_content_ok(arg: ast.expr, line_var: str, flow=None):
+    """the printed expression is the line itself, possibly with exactly a trailing newline removed.
+    (True, ""), (False, why) for a positively different content, (None, why) when the expression is not read"""
     e = arg
-    while isinstance(e, ast.Call) and isinstance(e.func, ast.Attribute):
+    for _ in range(12):
+        if isinstance(e, ast.Name) and e.id != line_var and flow is not None:
+            ex = flow.expand(e)                      # content = line.rstrip("\n"); print(content, ...)
+            if ex is e:
+                break
+            e = ex
+            continue
+        if not (isinstance(e, ast.Call) and isinstance(e.func, ast.Attribute)):
+            break
         name = e.func.attr
         if name in ("rstrip", "removesuffix"):
             a = const_value(e.args[0], None) if len(e.args) == 1 else None
@@ -521,11 +584,13 @@ def writer_content_ok(arg: ast.expr, line_var: str):
         elif name in ("strip", "lstrip", "replace", "lower", "upper", "expandtabs", "title", "format"):
             return False, f"`{src(arg)}` alters the line before writing it"
         else:
-            return False, f"`{src(arg)}`: unclassified transformation .{name}() of the line"
+            return None, f"`{src(arg)}`: unclassified transformation .{name}() of the line"
         e = e.func.value
     if isinstance(e, ast.Name) and e.id == line_var:
         return True, ""
-    return False, f"`{src(arg)}` is not the line being saved"
+    if isinstance(e, (ast.Constant, ast.Name)):
+        return False, f"`{src(arg)}` is not the line being saved"
+    return None, f"`{src(arg)}`: how this derives from the line being saved is not read"
 
 
 def index_guards(prog, rep: Report, mut: Cls, rule: str):
